@@ -1,3 +1,3 @@
-(* C09 lemmas: re-export of Proofs1..8 *)
+(* C09 lemmas: re-export *)
 From QE Require Export C09.Proofs1 C09.Proofs2 C09.Proofs3 C09.Proofs4 C09.Proofs4b C09.Proofs5 C09.Proofs6 C09.Proofs7.
-From QE Require Export C09.Proofs8.
+From QE Require Export C09.Proofs8 C09.Proofs9a C09.Proofs9b C09.Proofs9c C09.Proofs9d.
